@@ -72,7 +72,7 @@ pub fn judge_with(c: &Case, id: &str, make: &dyn Fn(&Prog, &RawCmd) -> Cmd) -> O
     // the single commands cannot be read from the transcript, and the comparison is on the final
     // snapshot (hook H1), the instruction count and the program's output. (Programs that may
     // execute REG are kept in minimal mode: its listing differs between the modes.)
-    let may_reg = p.img.words.iter().any(|w| *w & 0xF0FF == 0xF027);
+    let may_reg = model.dbg.executed_reg || p.img.words.iter().any(|w| *w & 0xF0FF == 0xF027);
     let minimal = may_reg || obs.key % 4 != 0;
     obs.label(if minimal { "output-mode-minimal" } else { "output-mode-normal" });
     let s = if minimal { run_lace(&p, &script, &c.input, fuel) } else { run_lace_mode(&p, &script, &c.input, fuel, false) };
